@@ -1,6 +1,7 @@
 package vc
 
 import (
+	"time"
 	"sync"
 	"fmt"
 	"go/types"
@@ -36,8 +37,9 @@ type Prog struct {
 
 // Load loads the given package patterns (relative to the module) from dir.
 func Load(dir string, patterns ...string) (*Prog, error) {
+	t0 := time.Now()
 	env := append(os.Environ(), "GOFLAGS=-mod=mod", "GOPROXY=off", "GOTOOLCHAIN=local")
-	cfg := &packages.Config{Mode: packages.LoadAllSyntax, Dir: dir, BuildFlags: []string{"-tags", "verif"}, Env: env}
+	cfg := &packages.Config{Mode: packages.LoadSyntax, Dir: dir, BuildFlags: []string{"-tags", "verif"}, Env: env}
 	pkgs, err := packages.Load(cfg, patterns...)
 	if err != nil {
 		return nil, err
@@ -53,7 +55,7 @@ func Load(dir string, patterns ...string) (*Prog, error) {
 	if len(errs) > 0 {
 		return nil, fmt.Errorf("load errors: %s", strings.Join(errs, "; "))
 	}
-	prog, _ := ssautil.AllPackages(pkgs, ssa.InstantiateGenerics|ssa.BareInits)
+	prog, _ := ssautil.Packages(pkgs, ssa.InstantiateGenerics|ssa.BareInits|ssa.GlobalDebug)
 	prog.Build()
 	p := &Prog{Pkgs: pkgs, SSA: prog, SPkgs: map[string]*ssa.Package{}, Funcs: map[string]*ssa.Function{},
 		tags: map[string]int{}, tagTypes: []types.Type{nil}, NoReturn: map[*ssa.Function]bool{},
@@ -73,8 +75,16 @@ func Load(dir string, patterns ...string) (*Prog, error) {
 		}
 		p.Funcs[FuncName(fn)] = fn
 	}
+	t1 := time.Now()
+	if os.Getenv("SLIPVC_TIMING") != "" {
+		fmt.Fprintf(os.Stderr, "timing: load+ssa=%.1fs\n", t1.Sub(t0).Seconds())
+	}
 	p.numberModuleTypes()
+	t2 := time.Now()
 	p.inferNoReturn()
+	if os.Getenv("SLIPVC_TIMING") != "" {
+		fmt.Fprintf(os.Stderr, "timing: number=%.1fs noreturn=%.1fs\n", t2.Sub(t1).Seconds(), time.Since(t2).Seconds())
+	}
 	return p, nil
 }
 
@@ -427,7 +437,9 @@ func (p *Prog) instrMods(in ssa.Instruction, m *ModSet) {
 			m.Comps[c] = true
 		}
 	case *ssa.MapUpdate:
-		m.Comps["$maps"] = true
+		for _, c := range mapModComps(x.Map.Type()) {
+			m.Comps[c] = true
+		}
 	case *ssa.Send:
 		m.All = true
 	case *ssa.Go:
@@ -449,7 +461,11 @@ func (p *Prog) callMods(c *ssa.CallCommon, m *ModSet) {
 				}
 			}
 		case "delete", "clear":
-			m.Comps["$maps"] = true
+			if len(c.Args) > 0 {
+				for _, cc := range mapModComps(c.Args[0].Type()) {
+					m.Comps[cc] = true
+				}
+			}
 		}
 		return
 	}
